@@ -26,6 +26,9 @@ def BV(n):
 class Unsupported(Exception):
     pass
 
+class Infeasible(Exception):
+    """The path contradicts a modelling invariant (a slice is never longer than its capacity bound)."""
+
 class Model:
     def __init__(self, ssa, cfg):
         self.funcs = {f['name']: f for f in ssa['funcs']}
@@ -103,6 +106,7 @@ class Path:
         self.finished = None          # ('loc', locid) | ('end',)
         self.plain_access = None      # (kind, location name) of an unprotected plain access (race detection)
         self.env = {}                 # symbolic registers set in this segment: regname -> term
+        self.vis_ops = []             # visible operations performed in this segment, in order (for the native replay)
 
     def fork(self):
         p = Path(self.m, self.tid, [f.copy() for f in self.frames], self.holding, dict(self.state), list(self.guard))
@@ -111,6 +115,7 @@ class Path:
         p.plain_access = self.plain_access
         p.choice_cons = list(self.choice_cons)
         p.env = dict(self.env)
+        p.vis_ops = list(self.vis_ops)
         p.choice_kinds = list(getattr(self, 'choice_kinds', []))
         return p
 
@@ -271,6 +276,14 @@ class Seg:
                 sv = fr.statics[r]
                 if isinstance(sv, tuple) and sv and isinstance(sv[0], str) and sv[0] in ('eptrvar', 'efieldvar'):
                     return (sv[0][:-3], p.get(sv[1])) + tuple(sv[2:])
+                if isinstance(sv, tuple) and sv and sv[0] == 'slicevar':
+                    # a slice header kept across a scheduling point: its length was saved, its elements
+                    # are those of the field's backing array as it is now
+                    origin = tuple(sv[2])
+                    key = '%s.%s' % (origin[1], origin[2])
+                    M = self.cfg['maxtodo']
+                    elems = [p.get(self.m.var('%s.e%d' % (key, i))) for i in range(M)]
+                    return ('slice', elems, p.get(sv[1]), origin)
                 return sv
             name = p.regname(fr.fn, r)
             if name in p.env:
@@ -312,6 +325,7 @@ class Seg:
         if p.visible_done:
             return True
         p.visible_done = True
+        p.vis_ops.append(what)
         return False
 
     def load(self, p, fr, ref, typ):
@@ -432,10 +446,15 @@ class Seg:
                 steps += 1
                 if steps > 20000:
                     raise Unsupported('segment does not reach a scheduling point (loop without yield?) at %r' % (loc,))
-                forks = self.step(p)
+                try:
+                    forks = self.step(p)
+                except Infeasible:
+                    p = None
+                    break
                 if forks:
                     work.extend(forks)
-            done.append(p)
+            if p is not None:
+                done.append(p)
         return done
 
     def cut(self, p):
@@ -463,6 +482,10 @@ class Seg:
                     name = self.m.var(p.regname(f.fn, r) + '.id')
                     p.set(name, to_bv(val[1]))
                     f.statics[r] = (val[0] + 'var', name) + tuple(val[2:])
+                elif isinstance(val, tuple) and len(val) == 4 and val[0] == 'slice' and val[3] is not None:
+                    name = self.m.var(p.regname(f.fn, r) + '.len')
+                    p.set(name, to_bv(val[2]))
+                    f.statics[r] = ('slicevar', name, tuple(val[3]))
                 else:
                     del f.statics[r]
         key = (tuple(f.key() for f in p.frames), p.holding)
@@ -526,6 +549,10 @@ class Seg:
             elif x[0] == 'slice':
                 if x[3] is None:
                     raise Unsupported('IndexAddr on a slice without origin')
+                if is_conc(i) and i >= self.cfg['maxtodo']:
+                    # beyond the capacity bound: only reachable with len > bound, which the
+                    # todo-capacity-exceeded flag reports where it would arise
+                    raise Infeasible()
                 # bounds check
                 self.flag(p, 'index-out-of-range', z3.Not(z3.ULT(to_bv(i), to_bv(x[2]))))
                 self.setreg(p, fr, reg, ('elem', x[3], i))
@@ -1478,6 +1505,7 @@ def i_yield(seg, p, fr, args, reg):
         return
     fr.statics['Y!resumed'] = True
     p.visible_done = True
+    p.vis_ops.append('yield')
     seg.cut(p)
 
 def expected_value(seg, p, k):
@@ -1949,7 +1977,7 @@ def describe(m, states, info, mdl, kind, K):
         used = []
         for pi, pth in enumerate(m.summaries.get((t, pc), [])):
             if z3.is_true(ev(z3.Bool('en_%d_%d_%d@%d' % (t, pc, pi, k)))):
-                fired = {'path': pi, 'to': pth.finished}
+                fired = {'path': pi, 'to': pth.finished, 'vis_ops': list(getattr(pth, 'vis_ops', []))}
                 for ci, ckind in enumerate(getattr(pth, 'choice_kinds', [])):
                     used.append((ckind, ev(z3.BitVec('ch_%d_%d' % (k, ci), W)).as_long()))
         opname = ''
